@@ -1,21 +1,33 @@
 #!/usr/bin/env python3
-"""tools/append_props.py <Cxx> <Proofs file> name...: append re-exports (docstring + full statement)
-of proved lemmas to lean/Sparrow/Props/<Cxx>.lean (import added, inserted before the final `end`)."""
+"""tools/append_props.py <Cxx> [--ns Sub] <Proofs file> name...: append re-exports (docstring + full
+statement) of proved lemmas to lean/Sparrow/Props/<Cxx>.lean (import added).  Without --ns they
+are inserted before the final `end`; with --ns Sub they go into a new block
+`namespace Sparrow.Props.<Cxx>.Sub` (opening the source file's namespaces) after it."""
 import re, sys, os
 sys.path.insert(0, os.path.dirname(__file__))
 from export_props import export
 
 
 def main():
-    prop, src, names = sys.argv[1], sys.argv[2], sys.argv[3:]
+    args = sys.argv[1:]
+    prop = args.pop(0)
+    sub = None
+    if args[0] == '--ns':
+        args.pop(0)
+        sub = args.pop(0)
+    src, names = args[0], args[1:]
     mod, opens, body = export(src, names)
     path = os.path.join(os.path.dirname(__file__), '..', 'lean', 'Sparrow', 'Props', prop + '.lean')
     s = open(path).read()
     imp = 'import ' + mod + '\n'
     if imp not in s:
         s = imp + s
-    m = list(re.finditer(r'^end \S+\s*$', s, re.M))[-1]
-    s = s[:m.start()] + '\n'.join(body) + '\n' + s[m.start():]
+    if sub is None:
+        m = list(re.finditer(r'^end \S+\s*$', s, re.M))[-1]
+        s = s[:m.start()] + '\n'.join(body) + '\n' + s[m.start():]
+    else:
+        ns = 'Sparrow.Props.%s.%s' % (prop, sub)
+        s = s.rstrip('\n') + '\n\nnamespace %s\nopen %s\n\n' % (ns, ' '.join(dict.fromkeys(opens))) + '\n'.join(body) + '\nend %s\n' % ns
     open(path, 'w').write(s)
 
 
